@@ -1,5 +1,5 @@
 """C08 — what lexical writes, lexical parses back: interface agreement only (DESIGN §4)."""
-from rules.core import (guarded, callee_name, last_seg, path_conditions, reach_alternatives, op_expr, rvalue_expr, show,
+from rules.core import (guarded, guarded_soft, callee_name, last_seg, path_conditions, reach_alternatives, op_expr, rvalue_expr, show,
                         strip_casts, expr_calls, expr_consts, strip_generics, AnchorMissing)
 
 INFO = {
@@ -218,12 +218,12 @@ def run(col, configs, tier):
         guarded(col, rule_flag_polarity, facts)
         guarded(col, rule_exponent_sign_paths, facts)
         from rules import extra as X2
-        guarded(col, X2.rule_trim_needs_fraction_flag, facts)
-        guarded(col, X2.rule_mantissa_plus_paths, facts)
+        guarded_soft(col, X2.rule_trim_needs_fraction_flag, facts)
+        guarded_soft(col, X2.rule_mantissa_plus_paths, facts)
         from rules import extra as X
-        guarded(col, X.rule_mixed_base_scaling, facts)
-        guarded(col, X.rule_incremented_digit_in_range, facts)
-        guarded(col, X.rule_lemire_precision_and_window, facts)
+        guarded_soft(col, X.rule_mixed_base_scaling, facts)
+        guarded_soft(col, X.rule_incremented_digit_in_range, facts)
+        guarded_soft(col, X.rule_lemire_precision_and_window, facts)
         from rules import syntax as S8
         guarded(col, S8.rule_getters, facts)
         from rules import c15
